@@ -82,6 +82,35 @@ def arith(types=INTS, ops=ARITH_OPS, consumers=('local', 'cmp', 'widen', 'div', 
     return out
 
 
+def arithlit(types=INTS, tier='quick'):
+    """`a op LITERAL` and `LITERAL op a`: the shapes instruction selection likes to specialise (powers of two, +-1, 3, 10)."""
+    out = []
+    lits = {'+': [1], '-': [1], '*': [3, 8], '/': [2, 8, 3, -1], '%': [2, 8, 3, 10, -4]}
+    for ty in types:
+        a = Var('a', ty)
+        head = [Let('a', ty, Cast(X, ty))]
+        for op, ls in lits.items():
+            for k in ls:
+                if k < 0 and not ty.signed:
+                    continue
+                pre = None
+                if op in '/%' and k == -1:
+                    pre = (lambda ty: lambda args: narrow(args[0], ty) != z3.BitVecVal(1 << (ty.bits - 1), ty.bits))(ty)
+                kn = ('m%d' % -k) if k < 0 else str(k)
+                body = head + [Let('r', ty, Bin(op, a, Lit(k, ty))), Return(Cast(Var('r', ty), I64))]
+                out.append(Template('arithlit/%s/%s/r%s' % (OPNAME[op], ty.name, kn), fn1(body), pre=pre, family='arithlit'))
+                if tier != 'quick' or op in '-/%':
+                    pre2 = (lambda ty: lambda args: narrow(args[0], ty) != 0)(ty) if op in '/%' else None
+                    if op in '/%' and ty.signed and k < 0:
+                        continue
+                    body = head + [Let('r', ty, Bin(op, Lit(k if k > 0 else -k, ty), a)), Return(Cast(Var('r', ty), I64))]
+                    if op in '/%' and ty.signed:
+                        # LIT / a with a = -1 cannot overflow for a positive literal; only a = 0 is excluded
+                        pass
+                    out.append(Template('arithlit/%s/%s/l%s' % (OPNAME[op], ty.name, kn), fn1(body), pre=pre2, family='arithlit'))
+    return out
+
+
 def compare(types=INTS):
     out = []
     for ty in types:
@@ -261,11 +290,11 @@ def refs():
 
 
 def c01_quick():
-    return (arith(consumers=('local', 'cmp', 'widen')) + compare() + casts() + unary() + control() + composites() + refs() + castuse('quick'))
+    return (arith(consumers=('local', 'cmp', 'widen')) + arithlit(tier='quick') + compare() + casts() + unary() + control() + composites() + refs() + castuse('quick'))
 
 
 def c01_thorough():
-    return (arith() + compare() + casts() + unary() + control() + composites() + refs() + castuse('thorough'))
+    return (arith() + arithlit(tier='thorough') + compare() + casts() + unary() + control() + composites() + refs() + castuse('thorough'))
 
 
 # ------------------------------------------------------------------------------------------------ C04 fixed arrays
@@ -345,6 +374,18 @@ def c04(tier='quick'):
                     out.append(Template('c04/constexpr_read/%s/%s' % (tag, cn), fn3([mk] + rd(cx)), family='c04-constexpr', expect='any'))
                     body = [Let('k', I32, cx), mk] + rd(Var('k', I32))
                     out.append(Template('c04/constexpr_let_read/%s/%s' % (tag, cn), fn3(body), family='c04-constexpr', expect='any'))
+            # casts inside a constant index: the index is the VALUE of the cast (an unsigned cast of a negative constant is
+            # large, a narrowing cast wraps), whether the cast sits in the index or in the initialiser of a local
+            if n >= 3:
+                for cn, (m, ut) in {'neg1_u8': (-1, U8), 'neg1_u16': (-1, U16), 'neg2_u32': (-2, U32), 'pos1_u8': (1, U8), 'wrap257_i8': (257, I8), 'wrap255_i8': (255, I8)}.items():
+                    body = [Let('m', I32, Lit(m, I32), const=True), mk] + rd(Cast(Var('m', I32), ut))
+                    out.append(Template('c04/cast_read/%s/const_%s' % (tag, cn), fn3(body), family='c04-cast', expect='any'))
+                    body = [Let('m', I32, Lit(m, I32)), mk] + rd(Cast(Var('m', I32), ut))
+                    out.append(Template('c04/cast_read/%s/let_%s' % (tag, cn), fn3(body), family='c04-cast', expect='any'))
+                    body = [Let('m', I32, Lit(m, I32)), Let('j', ut, Cast(Var('m', I32), ut)), mk] + rd(Var('j', ut))
+                    out.append(Template('c04/cast_read/%s/letbound_%s' % (tag, cn), fn3(body), family='c04-cast', expect='any'))
+                    body = [Let('m', I32, Lit(m, I32)), mk, Assign(Index(a, Cast(Var('m', I32), ut)), Cast(Z, ety)), Return(_weights_sum(a, n, ety))]
+                    out.append(Template('c04/cast_write/%s/let_%s' % (tag, cn), fn3(body), family='c04-cast', expect='any'))
             # index computed from a parameter (opaque): must be rejected or bounds-checked
             body = [mk] + rd(Cast(Z, I32))
             out.append(Template('c04/param_read/%s' % tag, fn3(body), family='c04-param', expect='any'))
@@ -581,6 +622,18 @@ def c05_shapes(depth):
             yield ('wt_elif(brk,ret,brk)', lambda c: [While(Lit(True, BOOL), [If(c.cond(), [Break()], If(c.cond(), [c.ret()], [Break()]))])])
             yield ('wt_elif(ret,brk,ret)', lambda c: [While(Lit(True, BOOL), [If(c.cond(), [c.ret()], If(c.cond(), [Break()], [c.ret()]))])])
             yield ('wt_nested(brk)', lambda c: [While(Lit(True, BOOL), [If(c.cond(), [If(c.cond(), [Break()], [c.ret()])], [c.ret()])])])
+            # loops / branches whose condition is a bool local holding a compile-time-looking constant that is only
+            # conditionally (re)assigned before: whether the body runs is a run-time matter
+            def flag(c, init, then):
+                return [Let('g', BOOL, Lit(init, BOOL)), If(c.cond(), [Assign(Var('g', BOOL), Lit(then, BOOL))])]
+            yield ('wflag_ft(ret)', lambda c: flag(c, False, True) + [While(Var('g', BOOL), [c.ret()])])
+            yield ('wflag_tf(ret)', lambda c: flag(c, True, False) + [While(Var('g', BOOL), [c.ret()])])
+            yield ('wflag_tt(ret)', lambda c: flag(c, True, True) + [While(Var('g', BOOL), [c.ret()])])
+            yield ('wflag_ft(ifret)', lambda c: flag(c, False, True) + [While(Var('g', BOOL), [If(c.cond(), [c.ret()]), Break()])])
+            yield ('ifflag_ft(ret)', lambda c: flag(c, False, True) + [If(Var('g', BOOL), [c.ret()])])
+            yield ('ifflag_tf(ret,nop)', lambda c: flag(c, True, False) + [If(Var('g', BOOL), [c.ret()], [c.nop()])])
+            yield ('wconst(ret)', lambda c: [Let('G', BOOL, Lit(True, BOOL), const=True), While(Var('G', BOOL), [c.ret()])])
+            yield ('wnotflag(ret)', lambda c: flag(c, True, False) + [While(Not(Var('g', BOOL)), [c.ret()])])
         yield ('ret', lambda c: [c.ret()])
         yield ('nop', lambda c: [c.nop()])
         if d == 0:
@@ -689,6 +742,6 @@ def c02_extra(tier='quick'):
 
 def c02(tier='quick'):
     if tier == 'quick':
-        base = arith(consumers=('local', 'cmp')) + compare() + casts() + unary() + control() + composites() + refs()
+        base = arith(consumers=('local', 'cmp')) + arithlit(tier='quick') + compare() + casts() + unary() + control() + composites() + refs()
         return base + castuse(tier) + c02_extra(tier) + c08(tier) + c18(tier)
     return c01_thorough() + c02_extra(tier) + c04(tier) + c08(tier) + c18(tier) + c05(tier, 0)
